@@ -574,6 +574,45 @@ def sessionWith {σ ρ π : Type} (exec : σ → ρ → Option (σ × π)) (cfg 
       (st'', r :: rs)
     else (st', [r])
 
+/-! ### the routing table (`[UCMM] Route`, `UCMM.route`): looked at *before* the route-path test -/
+
+/-- `"{port}/{link}".format( **segment )`: the key under which a hop is looked up (a number and an
+address spelling the same digits give the same key) -/
+def routeKey : Seg → Option Text
+  | .pl p l => some (renderInt p ++ 47 :: renderLink l)
+  | .other _ _ => none
+
+/-- `find_route()`: the table key of the request's first hop when the table has it (`portlink and
+target`); `none` = a local request (no table, no route path, not a port segment, or not in the table) -/
+def findRoute (routes : List Text) (rp : Option RoutePath) : Option Text :=
+  match rp with
+  | some (s :: _) =>
+    match routeKey s with
+    | some k => if routes.contains k then some k else none
+    | none => none
+  | _ => none
+
+/-- One request through `UCMM.request` of a device that also has a routing table.  A first hop found
+in the table is forwarded to the remote device (`forward`, abstract: remote forwarding is outside
+the property); everything else is a local request and goes through the route-path test. -/
+def serveRouted {σ ρ π : Type} (exec : σ → ρ → Option (σ × π))
+    (forward : σ → Text → Option RoutePath → ρ → σ × Reply π) (routes : List Text) (cfg : Config) (st : σ)
+    (rp : Option RoutePath) (req : ρ) : σ × Reply π :=
+  match findRoute routes rp with
+  | some k => forward st k rp req
+  | none => serveWith exec cfg st rp req
+
+def sessionRouted {σ ρ π : Type} (exec : σ → ρ → Option (σ × π))
+    (forward : σ → Text → Option RoutePath → ρ → σ × Reply π) (routes : List Text) (cfg : Config) :
+    σ → List (Option RoutePath × ρ) → σ × List (Reply π)
+  | st, [] => (st, [])
+  | st, (rp, req) :: rest =>
+    let (st', r) := serveRouted exec forward routes cfg st rp req
+    if r.status == 0 then
+      let (st'', rs) := sessionRouted exec forward routes cfg st' rest
+      (st'', r :: rs)
+    else (st', [r])
+
 /-! ## A small concrete device (tags are INT arrays) for the differential runs -/
 
 abbrev Tags := List (List Nat)
@@ -670,12 +709,18 @@ def execFrame (d : Dev) : Bool × Bool × Req → Option (Dev × List OpResult)
   | (true, true, .single (.unknown true)) => none
   | (_, true, req) => execReq d req
 
+/-- in the differential runs every table entry leads to a closed TCP port: the forwarding attempt
+fails with the status set beforehand (0x65) and nothing happens locally -/
+def forwardDead (d : Dev) (_ : Text) (_ : Option RoutePath) (_ : Bool × Bool × Req) :
+    Dev × Reply (List OpResult) :=
+  (d, ⟨true, 0x65, none⟩)
+
 /-- `toCM = false`: the wrapper's send path designates something else than a Connection Manager;
 `UCMM.request` then raises after the route-path test and before anything is executed -/
-def serve (cfg : Config) (d : Dev) (rp : Option RoutePath) (toCM : Bool) (req : Req) :=
-  serveWith execFrame cfg d rp (rp.isNone, toCM, req)
+def serve (cfg : Config) (routes : List Text) (d : Dev) (rp : Option RoutePath) (toCM : Bool) (req : Req) :=
+  serveRouted execFrame forwardDead routes cfg d rp (rp.isNone, toCM, req)
 
-def session (cfg : Config) (d : Dev) (frames : List (Option RoutePath × Bool × Req)) :=
-  sessionWith execFrame cfg d (frames.map fun (rp, toCM, req) => (rp, (rp.isNone, toCM, req)))
+def session (cfg : Config) (routes : List Text) (d : Dev) (frames : List (Option RoutePath × Bool × Req)) :=
+  sessionRouted execFrame forwardDead routes cfg d (frames.map fun (rp, toCM, req) => (rp, (rp.isNone, toCM, req)))
 
 end Cpppo.Route
